@@ -250,13 +250,12 @@ def r186_origin(P, u, rep):
         while isinstance(o, Obj):
             k = o.fields.get('kind')
             k = it.settle(k) if isinstance(k, View) else k
-            if k is None:
-                break
             if isinstance(k, int) and k == eof:
                 break
-            if isinstance(k, View) and eof in [k.proj(c) for c in k.cell.cands]:
-                break
+            undecided_kind = k is None or (isinstance(k, View) and eof in [k.proj(c) for c in k.cell.cands])
             toks.append(o)
+            if undecided_kind:
+                break        # never examined: may be a real token; nothing is known behind it
             nx = o.fields.get('next')
             nx = it.settle(nx) if isinstance(nx, View) else nx
             o = nx if isinstance(nx, Obj) else None
@@ -511,7 +510,8 @@ def r187(P, rep):
     base = '%s:%s' % (CG, fn)
 
     def cut_files(it, ctx, call, args):
-        return Arr([Obj('File', lazy=True, label='fileA'), Obj('File', lazy=True, label='fileB'), 0], label='files')
+        from .interp import ElemPlace
+        return _Ref(ElemPlace(Arr([Obj('File', lazy=True, label='fileA'), Obj('File', lazy=True, label='fileB'), 0], label='files'), 0))
 
     def m_println2(it, ctx, call, args):
         ctx.emit('emit', args, call.line)
@@ -536,6 +536,9 @@ def r187(P, rep):
                 files.append((e[1][0], [getattr(x, 'name', repr(x)) for x in e[1][1:]], early))
         want = [['fileA.file_no', 'fileA.name'], ['fileB.file_no', 'fileB.name']]
         got = [f[1] for f in files]
+        if any(not (x.startswith('fileA.') or x.startswith('fileB.')) for g in got for x in g):
+            rep.undecided('R18.7', base + ':shape', 'cannot follow how codegen walks the file table (%s)' % (got,), where=W)
+            continue
         ok = got == want and not any(f[2] for f in files) and all(f[0].split()[1:] == ['%d', '"%s"'] for f in files)
         rep.ob('R18.7', base + ':file-directive-per-input-file', ok,
                'for two input files codegen emits .file directives with operands %s (expected (file_no, name) of each file, once, before any code): a .loc then refers to a missing or wrong file entry' % (got,), where=W, facts={'path': ctx.trail})
